@@ -88,6 +88,11 @@ def check_l1(ctx) -> None:
     in_body = any(x is s for b_ in st.body for x in ast.walk(b_))
     in_else = any(x is s for b_ in st.orelse for x in ast.walk(b_))
     skipped_branch = st.orelse if in_body else st.body
+    if lits == COMMENT_PREFIXES and not (((negated and in_body) or (not negated and in_else)) and
+                                         all(isinstance(x, (ast.Expr, ast.Pass, ast.Continue)) for x in skipped_branch)):
+        # the right prefixes, but the skip is not the if/else (or if: continue) shape this rule reads: not a violation, not decidable here
+        raise AnalysisError('read_input_file: comment lines are tested for the documented prefixes, but the skip is not in the recognised '
+                            'if/continue shape (rewritten): cannot decide')
     ctx.check(lits == COMMENT_PREFIXES and ((negated and in_body) or (not negated and in_else)) and
               all(isinstance(x, (ast.Expr, ast.Pass, ast.Continue)) for x in skipped_branch),
               'L1', 'read_input_file/comment-prefixes', f'{rel}:{st.lineno}',
